@@ -386,7 +386,7 @@ package callbacks
 //@   match call gorm.(*Statement).AddClause
 //@   in callbacks.Delete$1
 //@   min-sites 3
-//@   assert key-values-found: is(arg1, clause.Where) ==> len(values) > 0 [C09]
+//@   assert key-values-found: keyLookups >= 1 && is(arg1, clause.Where) ==> len(values) > 0 [C09]
 //@ site update-key-condition-only-for-a-set-key
 //@   match call gorm.(*Statement).AddClause
 //@   in callbacks.ConvertToAssignments
